@@ -42,6 +42,35 @@ RECURSIVE MkTuple(_, _)
 \* fn:tuple(a,b,c) = pair(a, pair(b, c)); fn:tuple(a) = a
 MkTuple(a, i) == IF i = Len(a) THEN a[i] ELSE Pair(a[i], MkTuple(a, i + 1))
 
+(***************************************************************************)
+(* String and name functions over ASCII text (TLC evaluates Len, \o and    *)
+(* SubSeq on strings): they agree with plain string operations.            *)
+(***************************************************************************)
+StartsWith(s, p) == Len(p) <= Len(s) /\ SubSeq(s, 1, Len(p)) = p
+EndsWith(s, p) == Len(p) <= Len(s) /\ SubSeq(s, Len(s) - Len(p) + 1, Len(s)) = p
+ContainsStr(s, p) == \E i \in 0..(Len(s) - Len(p)) : SubSeq(s, i + 1, i + Len(p)) = p
+\* leftmost non-overlapping replacement of at most n occurrences (n < 0: all) of a non-empty old (strings.Replace)
+RECURSIVE ReplaceStr(_, _, _, _)
+ReplaceStr(s, old, new, n) ==
+  IF n = 0 \/ Len(s) < Len(old) THEN s
+  ELSE IF SubSeq(s, 1, Len(old)) = old THEN new \o ReplaceStr(SubSeq(s, Len(old) + 1, Len(s)), old, new, IF n < 0 THEN n ELSE n - 1)
+  ELSE SubSeq(s, 1, 1) \o ReplaceStr(SubSeq(s, 2, Len(s)), old, new, n)
+\* text of a value inside fn:string:concat
+TextOf(v) == IF IsStr(v) \/ IsName(v) THEN v[2] ELSE IF IsNum(v) THEN ToString(v[2]) ELSE "?"
+Textual(v) == IsStr(v) \/ IsName(v) \/ IsNum(v)
+RECURSIVE ConcatText(_, _)
+ConcatText(a, i) == IF i > Len(a) THEN "" ELSE TextOf(a[i]) \o ConcatText(a, i + 1)
+\* the parts of a name "/a/b": positions of the slashes
+Slashes(s) == {i \in 1..Len(s) : SubSeq(s, i, i) = "/"}
+NextSlash(s, i) == IF \E j \in Slashes(s) : j > i THEN (CHOOSE j \in Slashes(s) : j > i /\ \A k \in Slashes(s) : k > i => j <= k) ELSE Len(s) + 1
+LastSlash(s) == CHOOSE j \in Slashes(s) : \A k \in Slashes(s) : k <= j
+NameRoot(s) == SubSeq(s, 1, NextSlash(s, 1) - 1)
+NameTip(s) == SubSeq(s, LastSlash(s), Len(s))
+RECURSIVE NamePartsFrom(_, _)
+NamePartsFrom(s, i) == IF i > Len(s) THEN <<>> ELSE <<Nm(SubSeq(s, i, NextSlash(s, i) - 1))>> \o NamePartsFrom(s, NextSlash(s, i))
+\* a name is below a prefix when its parts extend the prefix's parts
+BelowPrefix(nm, pre) == StartsWith(nm, pre \o "/")
+
 ApplyFn(f, a) ==
   CASE f = "fn:plus"  -> IF AllNum(a) /\ Len(a) >= 1 THEN Num(FoldNum("+", a, 2, a[1][2])) ELSE ERR
     [] f = "fn:minus" -> IF AllNum(a) /\ Len(a) >= 1
@@ -68,6 +97,14 @@ ApplyFn(f, a) ==
     [] f = "fn:struct" -> IF Len(a) % 2 = 0 THEN StructV(PairUp(a, 1)) ELSE ERR
     [] f = "fn:map:get" -> IF Len(a) = 2 /\ IsMap(a[1]) THEN LookupEntry(a[1][2], a[2]) ELSE ERR
     [] f = "fn:struct:get" -> IF Len(a) = 2 /\ IsStruct(a[1]) THEN LookupEntry(a[1][2], a[2]) ELSE ERR
+    [] f = "fn:string:concat" -> IF \A i \in DOMAIN a : Textual(a[i]) THEN Str(ConcatText(a, 1)) ELSE ERR
+    [] f = "fn:string:replace" -> IF Len(a) = 4 /\ IsStr(a[1]) /\ IsStr(a[2]) /\ IsStr(a[3]) /\ IsNum(a[4]) /\ a[2][2] # ""
+                                 THEN Str(ReplaceStr(a[1][2], a[2][2], a[3][2], a[4][2])) ELSE ERR
+    [] f = "fn:name:to_string" -> IF Len(a) = 1 /\ IsName(a[1]) THEN Str(a[1][2]) ELSE ERR
+    [] f = "fn:name:root" -> IF Len(a) = 1 /\ IsName(a[1]) THEN Nm(NameRoot(a[1][2])) ELSE ERR
+    [] f = "fn:name:tip" -> IF Len(a) = 1 /\ IsName(a[1]) THEN Nm(NameTip(a[1][2])) ELSE ERR
+    [] f = "fn:name:list" -> IF Len(a) = 1 /\ IsName(a[1]) THEN List(NamePartsFrom(a[1][2], 1)) ELSE ERR
+    [] f = "fn:number:to_string" -> IF Len(a) = 1 /\ IsNum(a[1]) THEN Str(ToString(a[1][2])) ELSE ERR
     [] f = "fn:some" -> IF Len(a) = 1 THEN a[1] ELSE ERR  \* placeholder: fn:some is not generated
     [] OTHER -> ERR
 
